@@ -26,7 +26,9 @@ func tryCases(sp *simProc, cases []Case, v *Violation) (bool, *RunResult, *Viola
 	sp.refBatch(in, ref)
 	bt = readBatch(ref)
 	if v.Engine == "ref" {
-		sp.refReverse(in, out)
+		if msg := sp.refReverse(in, out); msg != "" {
+			return false, nil, nil
+		}
 		rv := readBatch(out)
 		for _, c := range compareRefs(bt, rv) {
 			if c.key() == v.key() {
